@@ -583,12 +583,21 @@ func (tree *MutableTree) enableFastStorageAndCommitIfNotEnabled() (bool, error) 
 	// downgrade and subsequent re-upgrade, we cannot know for sure which fast nodes have been removed while downgraded,
 	// Therefore, there might exist stale fast nodes on disk. As a result, to avoid persisting the stale state, it might
 	// be worth to delete the fast nodes from disk.
+	// The keys are collected first: deleting fills the write batch, which may be flushed to
+	// the database, and a backend such as MemDB cannot be written to while one of its
+	// iterators is still open.
 	fastItr := NewFastIterator(nil, nil, true, tree.ndb)
-	defer fastItr.Close()
-	var deletedFastNodes uint64
+	var staleFastKeys [][]byte
 	for ; fastItr.Valid(); fastItr.Next() {
+		staleFastKeys = append(staleFastKeys, append([]byte(nil), fastItr.Key()...))
+	}
+	if err := fastItr.Close(); err != nil {
+		return false, err
+	}
+	var deletedFastNodes uint64
+	for _, key := range staleFastKeys {
 		deletedFastNodes++
-		if err := tree.ndb.DeleteFastNode(fastItr.Key()); err != nil {
+		if err := tree.ndb.DeleteFastNode(key); err != nil {
 			return false, err
 		}
 	}
